@@ -210,6 +210,17 @@ Theorem C03_selected_only_if_documented : forall eng ds es t q r caps rej cs,
 Proof. exact lookup_selected_now. Qed.
 Print Assumptions C03_selected_only_if_documented.
 
+(** history independence, as far as a theorem about the MODEL can say it: a sequence of requests served by
+    one instance of a loaded rule set is answered request by request - the same request gets the same
+    answer at any place of any sequence.  (The model is stateless by construction; that the
+    implementation is, is observed by the check: every request of a case goes through the same matcher
+    instances and is compared with the answer of an instance built anew.) *)
+Theorem C03_history_independent : forall fx1 fx2 fx5 fx6 fx7 eng es t qs1 qs2 i j q,
+  nth_error qs1 i = Some q -> nth_error qs2 j = Some q ->
+  nth_error (serve_seq fx1 fx2 fx5 fx6 fx7 eng es t qs1) i = nth_error (serve_seq fx1 fx2 fx5 fx6 fx7 eng es t qs2) j.
+Proof. exact serve_seq_same_request. Qed.
+Print Assumptions C03_history_independent.
+
 (** the tree-side findings, on loaded rule sets *)
 Theorem C03_F2_pinned_refuted :
   exists ds q k s segs,
